@@ -24,6 +24,7 @@ import (
 	"encoding/binary"
 	"fmt"
 	"hash"
+	"strings"
 	"time"
 
 	"golang.org/x/crypto/blake2b"
@@ -246,7 +247,7 @@ func prepA(c *vf.Ctx, a *alg) []caseA {
 			}
 		}
 	}
-	c.ParallelFor(len(cs), func(i int) {
+	pfor(c, a.name+" section A-prep", len(cs), func(i int) {
 		x := &cs[i]
 		x.key = c.Bytes(a.name+"-A-key", x.klen, x.klen)
 		x.msg = c.Bytes(a.name+"-A-msg", x.size, x.mlen)
@@ -256,7 +257,7 @@ func prepA(c *vf.Ctx, a *alg) []caseA {
 }
 
 func sectionA(c *vf.Ctx, a *alg, path string, cs []caseA) {
-	c.ParallelFor(len(cs), func(i int) {
+	pfor(c, a.name+" section A", len(cs), func(i int) {
 		x := &cs[i]
 		var key []byte
 		if x.klen > 0 {
@@ -372,7 +373,7 @@ func prepB(c *vf.Ctx, a *alg) []caseB {
 			}
 		}
 	}
-	c.ParallelFor(len(cs), func(i int) {
+	pfor(c, a.name+" section B-prep", len(cs), func(i int) {
 		x := &cs[i]
 		x.msg = dataClass(c, fmt.Sprintf("%s-B-msg-%d", a.name, x.cfi), x.class, x.L)
 		x.want = a.ref(x.cf.size, x.cf.key, x.msg)
@@ -381,7 +382,7 @@ func prepB(c *vf.Ctx, a *alg) []caseB {
 }
 
 func sectionB(c *vf.Ctx, a *alg, path string, cs []caseB) {
-	c.ParallelFor(len(cs), func(i int) {
+	pfor(c, a.name+" section B", len(cs), func(i int) {
 		x := &cs[i]
 		failed := false
 		nplans := a.plans(x.L, x.full, func(plan []int) bool {
@@ -447,9 +448,11 @@ func sectionC(c *vf.Ctx, a *alg, path string) {
 	}
 	for ci, cf := range cfgs {
 		label := fmt.Sprintf("C/%s/%s/size%d/key%d", a.name, path, cf.size, len(cf.key))
+		// quick: depth 5 for the unkeyed maximal-size config, 4 for the others;
+		// thorough: depth 6 for the unkeyed and the max-keyed config, 5 for the others
 		d := depth
-		if c.Thorough && ci > 1 {
-			d = depth - 1 // thorough: depth 6 for the unkeyed and the max-keyed config, 5 for the others
+		if (c.Thorough && ci > 1) || (!c.Thorough && ci > 0) {
+			d = depth - 1
 		}
 		vf.ExploreSeq(c, label, vf.SeqSpec[op]{
 			Ops: ops, Depth: d, Parallel: true,
@@ -462,8 +465,12 @@ func sectionC(c *vf.Ctx, a *alg, path string) {
 				}
 				return "Reset"
 			},
-			Class: func(h []op, mis string) string { return a.class(mis + " [" + path + "]") },
-			Run: func(hist []op) (string, bool, string) {
+			Class: func(h []op, mis string) string {
+				cat, _, _ := strings.Cut(mis, " | ")
+				return a.class(cat + " [" + path + "]")
+			},
+			Run: func(hist []op) (key string, stop bool, mis string) {
+				defer recoverRun(&stop, &mis)
 				h, err := a.newHash(cf.size, cf.key)
 				if err != nil {
 					return "", true, "constructor error in history"
@@ -565,7 +572,7 @@ func sectionD(c *vf.Ctx, a *alg, path string) {
 		}
 	}
 	wlens := []int{0, 1, B - 1, B, B + 1, 2 * B, 2*B + 1, 3 * B, 3*B + 1, 4*B + 1, 6 * B}
-	c.ParallelFor(len(seeds), func(i int) {
+	pfor(c, a.name+" section D", len(seeds), func(i int) {
 		s := seeds[i]
 		hbytes := c.Bytes(a.name+"-D-h", i, 64)
 		block := c.Bytes(a.name+"-D-block", i, B)
@@ -729,5 +736,25 @@ func sectionE(c *vf.Ctx, a *alg) {
 		}
 	} else {
 		c.Violation("blake2s: crypto.Hash not registered", nil)
+	}
+}
+
+// pfor is c.ParallelFor with every case guarded: a panic escaping the code under test
+// is recorded as a violation instead of crashing the run.
+func pfor(c *vf.Ctx, section string, n int, f func(i int)) {
+	c.ParallelFor(n, func(i int) {
+		if p, v, st := vf.Protect(func() { f(i) }); p {
+			if len(st) > 1500 {
+				st = st[:1500]
+			}
+			c.Violation(section+": unexpected panic in the code under test", map[string]any{"case_index": i, "panic": fmt.Sprint(v), "stack": st})
+		}
+	})
+}
+
+// recoverRun turns a panic inside a history into a mismatch of that history.
+func recoverRun(stop *bool, mis *string) {
+	if r := recover(); r != nil {
+		*stop, *mis = true, fmt.Sprintf("unexpected panic | %v", r)
 	}
 }
